@@ -84,7 +84,7 @@ namespace Givaro {
     short IntNumTheoDom<MyRandIter>::mobius(const Rep& a) const
     {
         std::list< Rep> lr;
-        std::list<uint64_t> lp;
+        std::list< Rep> lp;
         Father_t::set(lr, lp, a);
         return mobius(lp);
     }
@@ -509,8 +509,8 @@ namespace Givaro {
     template<class MyRandIter>
     typename IntNumTheoDom<MyRandIter>::Rep& IntNumTheoDom<MyRandIter>::prim_inv(Rep& A, const Rep& n) const
     {
-        if (Rep::isleq(n,4)) return sub(A,n,this->one);
-        if (areEqual(n,8)) return init(A,3);
+        if (Rep::isleq(n,4)) return this->sub(A,n,this->one);
+        if (this->areEqual(n,8)) return this->init(A,3);
         return prim_base(A, n);
     }
 
@@ -560,12 +560,12 @@ namespace Givaro {
     typename IntNumTheoDom<MyRandIter>::Rep& IntNumTheoDom<MyRandIter>::lambda_primpow(Rep & z, const Rep& p, const uint64_t e) const
     {
         // Prerequisite : p prime.
-        if (areEqual(p, 2)) {
-            if (e<=3) return init(z,e);
+        if (this->areEqual(p, 2)) {
+            if (e<=3) return this->init(z,e);
             return dom_power(z, p, e-2, *this);
         } else {
             Rep tmp;
-            return mulin( dom_power(z, p, e-1, *this), sub(tmp, p, this->one) );
+            return this->mulin( dom_power(z, p, e-1, *this), this->sub(tmp, p, this->one) );
         }
     }
 
